@@ -465,6 +465,9 @@ class IndexLevel:
         for key_depth, k in enumerate(key):
             if isinstance(k, KEY_MULTIPLE_TYPES):
                 raise RuntimeError(f'slices cannot be used in a leaf selection into an IndexHierarchy; try HLoc[{key}].')
+            if node.index._map is None and not node.index.__contains__(k):
+                # labels are the positions of this index only; without a mapping the key would be passed through
+                raise KeyError(k)
             if node.targets is not None:
                 node = node.targets[node.index._loc_to_iloc(k)]
                 pos += node.offset
